@@ -539,11 +539,268 @@ Proof.
   - apply wrap_and_cnf. apply (dist_shape g1); [|assumption]. apply (demorgan_nnf _ _ _ H1).
 Qed.
 
-(** The conversion is not total: the sort inside [__apply_demorgan] compares
-    keys that are not ints (Python: TypeError). *)
-Lemma naive_not_total :
-  exists f nv, to_cnf_naive f nv = Err ETypeError.
-Proof. exists (FNot (FIf (FVar 1) (FVar 2))), 3. vm_compute. reflexivity. Qed.
+(** * Totality
+    After the repair of [__order_clauses] every sort key is an int, the
+    comparisons of the sort cannot raise, the binary search stays inside the
+    sorted prefix, and [demorgan_fuel] covers the recursion of
+    [__apply_demorgan]: [to_cnf_naive] returns on every formula. *)
+Lemma mapM_total {A B} (f : A -> res B) l :
+  (forall x, In x l -> exists y, f x = Ok y) -> exists ys, mapM f l = Ok ys.
+Proof.
+  induction l as [|x l IH]; intros H; cbn [mapM]; [eauto|].
+  destruct (H x (or_introl eq_refl)) as [y ->]. cbn [rbind].
+  destruct IH as [ys ->]; [intros a Ha; apply H; now right|]. cbn [rbind]. eauto.
+Qed.
+
+Definition allvar (l : list kv) : Prop := forall p, In p l -> is_var (fst p) = true.
+
+Lemma key_of_var c : is_var (key_of c) = true.
+Proof. destruct c as [z|[z|?|?|?]|l|l]; reflexivity. Qed.
+
+Lemma py_lt_var a b : is_var a = true -> is_var b = true -> exists r, py_lt a b = Ok r.
+Proof. destruct a, b; cbn; try discriminate; eauto. Qed.
+
+Lemma allvar_cons p l : allvar (p :: l) -> is_var (fst p) = true /\ allvar l.
+Proof. intros H. split; [apply H; now left|intros q Hq; apply H; now right]. Qed.
+
+Lemma run_desc_total l : forall prev, is_var prev = true -> allvar l ->
+  exists n, run_desc prev l = Ok n /\ (n <= length l)%nat.
+Proof.
+  induction l as [|[k v] l IH]; intros prev Hp Hl; cbn [run_desc].
+  - exists O. split; [reflexivity|apply Nat.le_refl].
+  - apply allvar_cons in Hl. destruct Hl as [Hk Hl]. cbn [fst] in Hk.
+    destruct (py_lt_var k prev Hk Hp) as [b ->]. cbn [rbind]. destruct b.
+    + destruct (IH k Hk Hl) as [n [-> Hn]]. cbn [rbind]. exists (S n). split; [reflexivity|cbn [length]; lia].
+    + exists O. split; [reflexivity|lia].
+Qed.
+
+Lemma run_asc_total l : forall prev, is_var prev = true -> allvar l ->
+  exists n, run_asc prev l = Ok n /\ (n <= length l)%nat.
+Proof.
+  induction l as [|[k v] l IH]; intros prev Hp Hl; cbn [run_asc].
+  - exists O. split; [reflexivity|apply Nat.le_refl].
+  - apply allvar_cons in Hl. destruct Hl as [Hk Hl]. cbn [fst] in Hk.
+    destruct (py_lt_var k prev Hk Hp) as [b ->]. cbn [rbind]. destruct b.
+    + exists O. split; [reflexivity|lia].
+    + destruct (IH k Hk Hl) as [n [-> Hn]]. cbn [rbind]. exists (S n). split; [reflexivity|cbn [length]; lia].
+Qed.
+
+Lemma count_run_total a b l : allvar (a :: b :: l) ->
+  exists n d, count_run (a :: b :: l) = Ok (n, d) /\ (2 <= n <= length (a :: b :: l))%nat.
+Proof.
+  intros H. destruct a as [k0 v0], b as [k1 v1]. cbn [count_run].
+  apply allvar_cons in H. destruct H as [H0 H]. apply allvar_cons in H. destruct H as [H1 H]. cbn [fst] in *.
+  destruct (py_lt_var k1 k0 H1 H0) as [c ->]. cbn [rbind]. destruct c.
+  - destruct (run_desc_total l k1 H1 H) as [n [-> Hn]]. cbn [rbind]. exists (S (S n)), true.
+    split; [reflexivity|cbn [length]; lia].
+  - destruct (run_asc_total l k1 H1 H) as [n [-> Hn]]. cbn [rbind]. exists (S (S n)), false.
+    split; [reflexivity|cbn [length]; lia].
+Qed.
+
+Lemma bsearch_total fuel : forall pre pivot l r,
+  is_var pivot = true -> allvar pre -> (l < r)%nat -> (r <= length pre)%nat -> (r - l <= fuel)%nat ->
+  exists pos, bsearch fuel pre pivot l r = Ok pos /\ (pos <= length pre)%nat.
+Proof.
+  induction fuel as [|fuel IH]; intros pre pivot l r Hp Hpre Hlr Hr Hf; [lia|].
+  cbn [bsearch].
+  assert (Hd : (Nat.div2 (r - l) < r - l)%nat) by (apply Nat.lt_div2; lia).
+  remember (l + Nat.div2 (r - l))%nat as p eqn:Ep.
+  assert (Hpb : (l <= p < r)%nat) by lia.
+  assert (Hpd : (p - l < r - l)%nat) by lia. clear Ep Hd.
+  destruct (nth_error pre p) as [[kp vp]|] eqn:E.
+  2: { apply nth_error_None in E. lia. }
+  assert (Hk : is_var kp = true) by (apply (Hpre (kp, vp)); eapply nth_error_In; eassumption).
+  destruct (py_lt_var pivot kp Hp Hk) as [b ->]. cbn [rbind]. destruct b.
+  - destruct (l <? p)%nat eqn:C.
+    + apply Nat.ltb_lt in C. apply IH; try assumption; lia.
+    + exists l. split; [reflexivity|lia].
+  - destruct (S p <? r)%nat eqn:C.
+    + apply Nat.ltb_lt in C. apply IH; try assumption; lia.
+    + exists (S p). split; [reflexivity|lia].
+Qed.
+
+Lemma insert_at_allvar n x pre : is_var (fst x) = true -> allvar pre -> allvar (insert_at n x pre).
+Proof.
+  intros Hx Hpre p Hp. apply (Permutation_in _ (Permutation_sym (insert_at_perm n x pre))) in Hp.
+  destruct Hp as [<-|Hp]; [assumption|now apply Hpre].
+Qed.
+
+Lemma binsort_total rest : forall pre, pre <> [] -> allvar pre -> allvar rest -> exists r, binsort pre rest = Ok r.
+Proof.
+  induction rest as [|x rest IH]; intros pre Hne Hpre Hrest; cbn [binsort]; [eauto|].
+  apply allvar_cons in Hrest. destruct Hrest as [Hx Hrest].
+  assert (Hlen : (0 < length pre)%nat) by (destruct pre; [congruence|cbn [length]; lia]).
+  destruct (bsearch_total (S (length pre)) pre (fst x) O (length pre) Hx Hpre Hlen (Nat.le_refl _) ltac:(lia))
+    as [pos [-> _]]. cbn [rbind].
+  apply IH; [|now apply insert_at_allvar|assumption].
+  intros E. pose proof (Permutation_length (insert_at_perm pos x pre)) as L. rewrite E in L. discriminate.
+Qed.
+
+Lemma pysort_kv_total l : allvar l -> exists r, pysort_kv l = Ok r.
+Proof.
+  intros H. destruct l as [|a [|b l]]; [cbn; eauto|cbn; eauto|].
+  unfold pysort_kv. destruct (count_run_total a b l H) as [n [d [-> Hn]]]. cbn [rbind].
+  set (L := a :: b :: l) in *.
+  assert (Hf : allvar (firstn n L)).
+  { intros p Hp. apply H. rewrite <- (firstn_skipn n L). apply in_or_app. now left. }
+  assert (Hs : allvar (skipn n L)).
+  { intros p Hp. apply H. rewrite <- (firstn_skipn n L). apply in_or_app. now right. }
+  assert (Hl : length (firstn n L) = n) by (apply firstn_length_le; lia).
+  apply binsort_total; [| |assumption].
+  - intros E. assert (X : length (if d then rev (firstn n L) else firstn n L) = n)
+      by (destruct d; [rewrite rev_length|]; exact Hl).
+    rewrite E in X. cbn [length] in X. lia.
+  - destruct d; [|assumption]. intros p Hp. apply Hf. now apply in_rev.
+Qed.
+
+Theorem pysort_total l : exists r, pysort l = Ok r.
+Proof.
+  unfold pysort.
+  assert (A : allvar (map (fun c => (key_of c, c)) l)).
+  { intros p Hp. apply in_map_iff in Hp. destruct Hp as [c [<- _]]. apply key_of_var. }
+  assert (B : forallb (fun p => is_var (fst p)) (map (fun c => (key_of c, c)) l) = true)
+    by (apply forallb_forall; exact A).
+  rewrite B, orb_true_r. destruct (pysort_kv_total _ A) as [r ->]. cbn [rbind]. eauto.
+Qed.
+
+Lemma pysort_total_perm l : exists r, pysort l = Ok r /\ Permutation l r.
+Proof. destruct (pysort_total l) as [r H]. exists r. split; [assumption|now apply pysort_perm]. Qed.
+
+Lemma flatten_total l cls : exists r, flatten_clause_list l cls = Ok r.
+Proof. unfold flatten_clause_list. apply pysort_total. Qed.
+
+Lemma build_or_total l : exists g, build_or l = Ok g.
+Proof. unfold build_or. destruct (flatten_total l false) as [r ->]. cbn [rbind]. eauto. Qed.
+
+Lemma build_and_total l : exists g, build_and l = Ok g.
+Proof. unfold build_and. destruct (flatten_total l true) as [r ->]. cbn [rbind]. eauto. Qed.
+
+(** recursion depth of [__apply_demorgan] ([neg]: below a negation that is
+    being pushed down) *)
+Definition mx (g : nf -> nat) (l : list nf) : nat := fold_right (fun x a => Nat.max (g x) a) O l.
+
+Lemma mx_le g l n : (mx g l <= n)%nat <-> forall x, In x l -> (g x <= n)%nat.
+Proof.
+  unfold mx. induction l as [|a l IH]; cbn [fold_right]; split.
+  - intros _ x [].
+  - intros _. lia.
+  - intros H x [<-|Hx]; [lia|]. apply IH; [lia|assumption].
+  - intros H. apply Nat.max_lub; [apply H; now left|]. apply IH. intros x Hx. apply H. now right.
+Qed.
+
+Fixpoint dneed (neg : bool) (f : nf) : nat :=
+  match f with
+  | NVar _ => 1
+  | NNot c => if neg then S (dneed false c) else dneed true c
+  | NAnd l | NOr l => ((if neg then 2 else 1) + fold_right (fun x a => Nat.max (dneed neg x) a) O l)%nat
+  end.
+
+Lemma dneed_and neg l : dneed neg (NAnd l) = ((if neg then 2 else 1) + mx (dneed neg) l)%nat.
+Proof. reflexivity. Qed.
+Lemma dneed_or neg l : dneed neg (NOr l) = ((if neg then 2 else 1) + mx (dneed neg) l)%nat.
+Proof. reflexivity. Qed.
+
+Definition nsum (l : list nf) : nat := fold_right (fun x a => (nsize x + a)%nat) O l.
+
+Lemma nsum_in x l : In x l -> (nsize x <= nsum l)%nat.
+Proof. unfold nsum. induction l as [|a l IH]; intros []; cbn [fold_right]; [subst; lia|specialize (IH H); lia]. Qed.
+
+Lemma dneed_bound f : forall neg, (dneed neg f <= 2 * nsize f)%nat.
+Proof.
+  induction f as [z|c IH|l IH|l IH] using nf_ind'; intros neg.
+  - cbn. lia.
+  - cbn [dneed nsize]. destruct neg; [specialize (IH false)|specialize (IH true)]; lia.
+  - rewrite dneed_and. change (nsize (NAnd l)) with (S (nsum l)).
+    assert (M : (mx (dneed neg) l <= 2 * nsum l)%nat).
+    { apply mx_le. intros x Hx. rewrite Forall_forall in IH. specialize (IH x Hx neg).
+      pose proof (nsum_in x l Hx). lia. }
+    destruct neg; lia.
+  - rewrite dneed_or. change (nsize (NOr l)) with (S (nsum l)).
+    assert (M : (mx (dneed neg) l <= 2 * nsum l)%nat).
+    { apply mx_le. intros x Hx. rewrite Forall_forall in IH. specialize (IH x Hx neg).
+      pose proof (nsum_in x l Hx). lia. }
+    destruct neg; lia.
+Qed.
+
+Lemma flat1_not b c : flat1 b (NNot c) = [NNot c].
+Proof. destruct b; reflexivity. Qed.
+
+Lemma flat_map_flat1_not b l : flat_map (flat1 b) (map NNot l) = map NNot l.
+Proof. induction l as [|c l IH]; [reflexivity|]. cbn [map flat_map]. now rewrite flat1_not, IH. Qed.
+
+Lemma demorgan_total n : forall f, (dneed false f <= n)%nat -> exists g, demorgan n f = Ok g.
+Proof.
+  induction n as [|n IH]; intros f Hn.
+  - destruct f as [z|c|l|l]; cbn in Hn; try lia.
+    exfalso. revert Hn. generalize true. induction c as [z|c IHc|l _|l _] using nf_ind'; intros b Hn.
+    + cbn in Hn. lia.
+    + cbn [dneed] in Hn. destruct b; [lia|]. now apply (IHc true).
+    + rewrite dneed_and in Hn. destruct b; lia.
+    + rewrite dneed_or in Hn. destruct b; lia.
+  - cbn [demorgan]. destruct f as [z|c|l|l].
+    + eauto.
+    + destruct c as [z|c'|l|l].
+      * eauto.
+      * apply IH. cbn [dneed] in Hn. lia.
+      * destruct (build_or_total (map NNot l)) as [t Ht]. rewrite Ht. cbn [rbind]. apply IH.
+        unfold build_or in Ht. apply rbind_ok in Ht. destruct Ht as [l' [H1 H2]]. inversion H2. subst t.
+        apply flatten_perm in H1. rewrite flat_map_flat1_not in H1.
+        change (dneed false (NNot (NAnd l))) with (dneed true (NAnd l)) in Hn. rewrite dneed_and in Hn.
+        rewrite dneed_or. cut (mx (dneed false) l' <= mx (dneed true) l)%nat; [lia|].
+        apply mx_le. intros x Hx. apply (Permutation_in _ (Permutation_sym H1)) in Hx.
+        apply in_map_iff in Hx. destruct Hx as [c [<- Hc]]. cbn [dneed].
+        apply (proj1 (mx_le (dneed true) l _) (Nat.le_refl _) c Hc).
+      * destruct (build_and_total (map NNot l)) as [t Ht]. rewrite Ht. cbn [rbind]. apply IH.
+        unfold build_and in Ht. apply rbind_ok in Ht. destruct Ht as [l' [H1 H2]]. inversion H2. subst t.
+        apply flatten_perm in H1. rewrite flat_map_flat1_not in H1.
+        change (dneed false (NNot (NOr l))) with (dneed true (NOr l)) in Hn. rewrite dneed_or in Hn.
+        rewrite dneed_and. cut (mx (dneed false) l' <= mx (dneed true) l)%nat; [lia|].
+        apply mx_le. intros x Hx. apply (Permutation_in _ (Permutation_sym H1)) in Hx.
+        apply in_map_iff in Hx. destruct Hx as [c [<- Hc]]. cbn [dneed].
+        apply (proj1 (mx_le (dneed true) l _) (Nat.le_refl _) c Hc).
+    + rewrite dneed_and in Hn.
+      destruct (mapM_total (demorgan n) l) as [l' ->].
+      { intros x Hx. apply IH. pose proof (proj1 (mx_le (dneed false) l _) (Nat.le_refl _) x Hx). lia. }
+      cbn [rbind]. apply build_and_total.
+    + rewrite dneed_or in Hn.
+      destruct (mapM_total (demorgan n) l) as [l' ->].
+      { intros x Hx. apply IH. pose proof (proj1 (mx_le (dneed false) l _) (Nat.le_refl _) x Hx). lia. }
+      cbn [rbind]. apply build_or_total.
+Qed.
+
+Lemma demorgan_fuel_total g : exists g1, demorgan (demorgan_fuel g) g = Ok g1.
+Proof. apply demorgan_total. unfold demorgan_fuel. pose proof (dneed_bound g false). lia. Qed.
+
+Lemma dist_naive_total f : exists g, dist_naive f = Ok g.
+Proof.
+  induction f as [z|c IH|l IH|l IH] using nf_ind'.
+  - cbn. eauto.
+  - cbn. eauto.
+  - rewrite dist_naive_and. rewrite Forall_forall in IH. destruct (mapM_total dist_naive l IH) as [l' ->].
+    cbn [rbind]. apply build_and_total.
+  - rewrite dist_naive_or. rewrite Forall_forall in IH. destruct (mapM_total dist_naive l IH) as [cl ->].
+    cbn [rbind]. destruct (mapM_total build_or (cprod (map get_list_for_crossing cl))) as [ors ->].
+    { intros x _. apply build_or_total. }
+    cbn [rbind]. apply build_and_total.
+Qed.
+
+(** [to_cnf_naive] returns on every formula and every counter, and what it
+    returns is an equivalent CNF over the leaves of the input. *)
+Theorem naive_total f nv :
+  exists g, to_cnf_naive f nv = Ok (g, nv) /\
+    (forall s, neval s g = eval s f) /\ incl (nleaves g) (leaves f) /\ is_cnf g = true.
+Proof.
+  assert (T : exists g, to_cnf_naive f nv = Ok (g, nv)).
+  { unfold to_cnf_naive. destruct (demorgan_fuel_total (elim f)) as [g1 ->]. cbn [rbind].
+    destruct (dist_naive_total g1) as [g2 ->]. cbn [rbind]. eauto. }
+  destruct T as [g H]. exists g. split; [assumption|]. now destruct (naive_correct _ _ _ _ H) as [_ X].
+Qed.
+
+Lemma ex_naive_repaired :
+  to_cnf_naive (FNot (FIf (FVar 1) (FVar 2))) 3 = Ok (NAnd [NVar 1; NNot (NVar 2)], 3) /\
+  to_cnf_naive (FNot (FOr [FVar 1; FAnd [FVar 2; FVar 3]])) 4 =
+    Ok (NAnd [NOr [NNot (NVar 2); NNot (NVar 3)]; NNot (NVar 1)], 4).
+Proof. split; vm_compute; reflexivity. Qed.
 
 Lemma ex_naive :
   to_cnf_naive (FIff (FVar 1) (FAnd [FVar 2; FVar (-3)])) 4 =
